@@ -39,3 +39,7 @@ def curOp (args : List String) : String :=
   | _ => "bad-op"
 
 end Sia.Driver
+
+namespace Sia.Driver
+def curOps : List (String × (List String → String)) := [("cur", curOp)]
+end Sia.Driver
